@@ -16,9 +16,12 @@ import (
 type c08Tok struct {
 	off, end int
 	tok      token.Token
+	interp   bool // inside the parentheses of a string interpolation
 }
 
 // c08Tokens scans src with comments and returns the real tokens (auto-inserted commas skipped).
+// String interpolations are followed the way the parser does (ResumeInterpolation after the
+// closing parenthesis of each `\(`), so files with interpolations have a token stream too.
 func c08Tokens(src []byte) (toks []c08Tok, ok bool) {
 	defer func() {
 		if r := recover(); r != nil {
@@ -29,6 +32,9 @@ func c08Tokens(src []byte) (toks []c08Tok, ok bool) {
 	f := token.NewFile("", -1, len(src))
 	bad := false
 	s.Init(f, src, func(pos token.Pos, msg string, args []interface{}) { bad = true }, scanner.ScanComments)
+	depth := 0
+	var interp []int
+	expectInterpParen := false
 	for {
 		pos, tok, lit := s.Scan()
 		if tok == token.EOF {
@@ -42,7 +48,29 @@ func c08Tokens(src []byte) (toks []c08Tok, ok bool) {
 		if n == 0 {
 			n = len(tok.String())
 		}
-		toks = append(toks, c08Tok{off, off + n, tok})
+		toks = append(toks, c08Tok{off, off + n, tok, len(interp) > 0})
+		switch tok {
+		case token.INTERPOLATION:
+			expectInterpParen = true
+		case token.LPAREN:
+			depth++
+			if expectInterpParen {
+				interp = append(interp, depth)
+				expectInterpParen = false
+			}
+		case token.RPAREN:
+			if len(interp) > 0 && interp[len(interp)-1] == depth {
+				interp = interp[:len(interp)-1]
+				rest := s.ResumeInterpolation()
+				k := token.STRING
+				if strings.HasSuffix(rest, "(") {
+					expectInterpParen = true
+					k = token.INTERPOLATION
+				}
+				toks = append(toks, c08Tok{off + 1, off + 1 + len(rest), k, len(interp) > 0})
+			}
+			depth--
+		}
 		if len(toks) > 200000 {
 			return nil, false
 		}
@@ -126,13 +154,13 @@ func c08Mutate(r *Rng, src []byte, toks []c08Tok, exprs [][2]int) ([]byte, strin
 				continue
 			}
 		case "comment-inline":
-			eds = append(eds, c08Edit{t.off, 0, fmt.Sprintf("// m%d\n", r.Intn(100))})
+			eds = append(eds, c08Edit{t.off, 0, fmt.Sprintf("// mi%d\n", r.Intn(100))})
 			kind = "comment-anywhere"
 		case "comment-own-line":
 			if strings.Contains(gap, "\n") {
 				eds = append(eds, c08Edit{t.off, 0, fmt.Sprintf("// m%d\n", r.Intn(100))})
 			} else {
-				eds = append(eds, c08Edit{t.off, 0, fmt.Sprintf("\n// m%d\n", r.Intn(100))})
+				eds = append(eds, c08Edit{t.off, 0, fmt.Sprintf("\n// mi%d\n", r.Intn(100))})
 				kind = "comment-anywhere"
 			}
 		case "comment-eol":
@@ -157,6 +185,11 @@ func c08Mutate(r *Rng, src []byte, toks []c08Tok, exprs [][2]int) ([]byte, strin
 	}
 	if len(eds) == 0 {
 		return nil, ""
+	}
+	for _, k := range kinds {
+		if k == "comment-anywhere" {
+			return applyEdits(src, eds), k
+		}
 	}
 	return applyEdits(src, eds), kinds[0]
 }
@@ -252,6 +285,10 @@ func c08Mutations(c *Cfg, r *Rng, corpus []c08Input, n int) []c08Input {
 			c.Count("mutant-rejected-by-parser")
 			continue
 		}
+		if strings.Contains(kind, "comment-anywhere") && !c08IrregularCommentsCharacterised(m) {
+			c.Count("mutant-outside-characterised-comment-positions")
+			continue
+		}
 		seen[string(m)] = true
 		for _, k := range strings.Split(kind, "+") {
 			c.Count("mutation:" + k)
@@ -275,6 +312,7 @@ func c08Mutations(c *Cfg, r *Rng, corpus []c08Input, n int) []c08Input {
 const c08Irregular = "irregular-comment-position: "
 
 type c08Gen struct {
+	noCmt     int // > 0: inside an operand of an operator: literals stay on one line without comments
 	r         *Rng
 	sb        strings.Builder
 	ncmt      int
@@ -286,6 +324,9 @@ type c08Gen struct {
 func (g *c08Gen) w(s string) { g.sb.WriteString(s) }
 
 func (g *c08Gen) comment() string {
+	if g.noCmt > 0 {
+		return ""
+	}
 	g.ncmt++
 	return fmt.Sprintf("// g%d", g.ncmt)
 }
@@ -298,6 +339,9 @@ func (g *c08Gen) sp() {
 // brk: a place where a line break (and therefore a comment) is harmless.
 func (g *c08Gen) brk() {
 	k := g.r.Intn(12)
+	if g.noCmt > 0 {
+		k = 4
+	}
 	if (k == 2 || k == 3) && !g.irregular {
 		k = 0
 	}
@@ -310,9 +354,11 @@ func (g *c08Gen) brk() {
 	case 1:
 		g.w("\n\n")
 	case 2:
-		g.w(" " + g.comment() + "\n")
+		g.ncmt++
+		g.w(fmt.Sprintf(" // gi%d\n", g.ncmt))
 	case 3:
-		g.w("\n" + g.comment() + "\n")
+		g.ncmt++
+		g.w(fmt.Sprintf("\n// gi%d\n", g.ncmt))
 	case 4, 5:
 		g.w(" ")
 	case 6:
@@ -323,6 +369,10 @@ func (g *c08Gen) brk() {
 
 // sep: between two elements of a struct, list or argument list.
 func (g *c08Gen) sep(allowNewlineOnly bool) {
+	if g.noCmt > 0 {
+		g.w(", ")
+		return
+	}
 	opts := []string{",", ", ", ",\n", ", " + g.comment() + "\n", ",\n\n", ",\n" + g.comment() + "\n", " ,"}
 	if allowNewlineOnly {
 		opts = append(opts, "\n", "\n", "\n\n", " "+g.comment()+"\n", "\n"+g.comment()+"\n"+g.comment()+"\n")
@@ -481,15 +531,24 @@ func (g *c08Gen) unary(depth int) {
 	if depth > 0 && g.r.Chance(1, 4) {
 		g.w(Pick(g.r, c08GenUnOps))
 		g.w(Pick(g.r, []string{"", "", " "}))
+		g.noCmt++
 		g.unary(depth - 1)
+		g.noCmt--
 		return
 	}
 	g.primary(depth)
 }
 
 func (g *c08Gen) expr(depth int) {
+	if depth > 0 && g.r.Chance(1, 3) { // an operator expression: operands are plain
+		g.noCmt++
+		defer func() { g.noCmt-- }()
+	} else {
+		g.unary(depth)
+		return
+	}
 	g.unary(depth)
-	for depth > 0 && g.r.Chance(1, 3) {
+	for first := true; depth > 0 && (first || g.r.Chance(1, 3)); first = false {
 		g.sp()
 		g.w(Pick(g.r, c08GenBinOps))
 		if g.r.Chance(1, 6) {
@@ -615,6 +674,10 @@ func c08GenPrograms(c *Cfg, r *Rng, n int) []c08Input {
 		seen[s] = true
 		if _, err := c08Parse([]byte(s)); err != nil {
 			c.Count("generated-rejected-by-parser")
+			continue
+		}
+		if irr && !c08IrregularCommentsCharacterised([]byte(s)) {
+			c.Count("generated-outside-characterised-comment-positions")
 			continue
 		}
 		c.Case("gen:"+s, strings.Count(s, "\n") > 0)
